@@ -367,6 +367,8 @@ func init() {
 			}
 		}
 		// results of the previous event, kept to see that later calls leave them alone (no shared buffers)
+		var prevDecGz mvt.Layers
+		var prevDecGzText string
 		var prevData, prevGz, prevDataCopy, prevGzCopy []byte
 		var prevDec mvt.Layers
 		var prevDecText string
@@ -528,6 +530,14 @@ func init() {
 			prevDec = dec
 			b, _ := json.Marshal(dec)
 			prevDecText = string(b)
+			if prevDecGz != nil { // the layers the gzipped path returned last time (names, keys, string values, coordinates)
+				if b, _ := json.Marshal(prevDecGz); string(b) != prevDecGzText {
+					e["stable"] = 0
+				}
+			}
+			prevDecGz = decgz
+			b, _ = json.Marshal(decgz)
+			prevDecGzText = string(b)
 			c.emit(e)
 		}
 	})
